@@ -306,6 +306,7 @@ func checkC09(p *Prog, r *Report) {
 		r.Floor("package-initialisers-scanned", nInit, 10)
 	}
 
+	checkProcessWideState(p, r, kp, scope)
 	// D5d pooled objects are reset (pool.go)
 	checkPoolResetDiscipline(p, r, kp, scope)
 
@@ -499,4 +500,140 @@ func sortedAfterLoop(phi *ssa.Phi, header *ssa.BasicBlock) bool {
 		}
 	}
 	return !usedOutside || sorted
+}
+
+// foreignGlobalRoot: the address (or slice/map value) v leads, through field/index/slice steps and loads, to a package-level
+// variable of a package outside the module.
+func foreignGlobalRoot(v ssa.Value) *ssa.Global {
+	for i := 0; i < 8; i++ {
+		switch x := v.(type) {
+		case *ssa.Global:
+			if x.Pkg != nil && !InModulePkg(x.Pkg) {
+				return x
+			}
+			return nil
+		case *ssa.FieldAddr:
+			v = x.X
+		case *ssa.IndexAddr:
+			v = x.X
+		case *ssa.Slice:
+			v = x.X
+		case *ssa.UnOp:
+			v = x.X
+		case *ssa.ChangeType:
+			v = x.X
+		default:
+			return nil
+		}
+	}
+	return nil
+}
+
+// foreignObjectField: v leads, through index/slice/load/interface-boxing steps, to a field of a struct type declared outside the
+// module that is reached from a parameter or a captured variable (an object the function was handed, not one it made). Returns
+// the struct's name and the field.
+func foreignObjectField(v ssa.Value) (string, string) {
+	for i := 0; i < 8; i++ {
+		switch x := v.(type) {
+		case *ssa.MakeInterface:
+			v = x.X
+		case *ssa.ChangeType:
+			v = x.X
+		case *ssa.IndexAddr:
+			v = x.X
+		case *ssa.Slice:
+			v = x.X
+		case *ssa.UnOp:
+			v = x.X
+		case *ssa.FieldAddr:
+			pt, ok := x.X.Type().Underlying().(*types.Pointer)
+			if !ok {
+				return "", ""
+			}
+			nn, ok := pt.Elem().(*types.Named)
+			if !ok || nn.Obj().Pkg() == nil || strings.HasPrefix(nn.Obj().Pkg().Path(), ModPath) {
+				return "", ""
+			}
+			// handed in: a parameter, a captured variable, or a field of such an object
+			root := x.X
+			for j := 0; j < 6; j++ {
+				switch y := root.(type) {
+				case *ssa.Parameter, *ssa.FreeVar:
+					return shortPkg(nn.String()), fieldName(x.X.Type(), x.Field)
+				case *ssa.UnOp:
+					root = y.X
+				case *ssa.FieldAddr:
+					root = y.X
+				default:
+					return "", ""
+				}
+			}
+			return "", ""
+		default:
+			return "", ""
+		}
+	}
+	return "", ""
+}
+
+// checkProcessWideState (C09-D5e, shared with C10).
+func checkProcessWideState(p *Prog, r *Report, kp func(string, string) string, scope []*ssa.Function) {
+	// D5e process-wide registries and variables of other packages: block-processing code registers no error code (cosmossdk.io
+	// errors.Register / New write a process-wide table and panic on a duplicate: the first call of a process succeeds, every later one
+	// panics) and writes into no package-level variable of a package outside the module (the SDK's key prefixes, tables, defaults)
+	{
+		nBad := 0
+		for _, fn := range scope {
+			if isInitFunc(fn) {
+				continue
+			}
+			for _, cs := range callSites(fn) {
+				switch cs.Name {
+				case "cosmossdk.io/errors.Register", "cosmossdk.io/errors.New", "cosmossdk.io/errors.RegisterWithGRPCCode",
+					"sdk/types/errors.Register", "sdk/types/errors.New":
+					nBad++
+					r.Fail(kp("STATE", "error-code-registered-at-run-time@"+FuncName(fn)), "error codes are registered by package initialisers only", p.Pos(cs.Instr.Pos()),
+						fmt.Sprintf("%s calls %s while blocks are processed: the registry is process-wide and panics on a duplicate, so the first call in a process returns an error and every later one panics — the result of the same transaction depends on what the process has executed before", FuncName(fn), cs.Name))
+				}
+			}
+			for _, b := range fn.Blocks {
+				for _, in := range b.Instrs {
+					var dst ssa.Value
+					how := ""
+					switch x := in.(type) {
+					case *ssa.Store:
+						dst, how = x.Addr, "assignment"
+					case *ssa.MapUpdate:
+						dst, how = x.Map, "map assignment"
+					case *ssa.Call:
+						if bi, ok := x.Call.Value.(*ssa.Builtin); ok && bi.Name() == "copy" && len(x.Call.Args) == 2 {
+							dst, how = x.Call.Args[0], "copy into"
+						}
+					}
+					if c, isCall := in.(*ssa.Call); isCall && dst == nil {
+						if sc := c.Call.StaticCallee(); sc != nil && isInPlaceMutator(FuncName(sc)) && len(c.Call.Args) > 0 {
+							dst, how = c.Call.Args[0], FuncName(sc)+" on"
+						}
+					}
+					if dst == nil {
+						continue
+					}
+					if owner, fld := foreignObjectField(dst); owner != "" {
+						nBad++
+						r.Fail(kp("STATE", "foreign-object-written:"+owner+"."+fld+"@"+FuncName(fn)), "block-processing code writes into no long-lived object of another module", p.Pos(in.Pos()),
+							fmt.Sprintf("%s: %s %s.%s of an object it was handed (not a local copy): the object lives as long as the process, so the change is seen by every later block of this process and by none of a restarted one", FuncName(fn), how, owner, fld))
+						continue
+					}
+					if g := foreignGlobalRoot(dst); g != nil {
+						nBad++
+						r.Fail(kp("STATE", "foreign-package-variable-written:"+shortPkg(g.Pkg.Pkg.Path())+"."+g.Name()+"@"+FuncName(fn)), "block-processing code writes into no package-level variable of another module", p.Pos(in.Pos()),
+							fmt.Sprintf("%s: %s %s.%s, a package-level variable of a package outside this module: the change lasts for the life of the process (not of the block), so replicas that executed, simulated or restarted differently read different values", FuncName(fn), how, g.Pkg.Pkg.Path(), g.Name()))
+					}
+				}
+			}
+		}
+		if nBad == 0 {
+			r.OK(kp("STATE", "process-wide-registries-untouched"), "block-processing code registers no error code and writes into no package-level variable of another module", "x/*, app/*", fmt.Sprintf("%d functions in scope", len(scope)))
+		}
+	}
 }
